@@ -227,7 +227,9 @@ func (g *crashGen) batchOp(name string) {
 	}
 }
 
-func (g *crashGen) key() string { return HexOf([]byte{byte(g.r.Intn(3)), byte('a' + g.r.Intn(2))}[:1+g.r.Intn(2)]) }
+func (g *crashGen) key() string {
+	return HexOf([]byte{byte(g.r.Intn(3)), byte('a' + g.r.Intn(2))}[:1+g.r.Intn(2)])
+}
 func (g *crashGen) val() string { return HexOf([]byte{byte(g.r.Intn(256))}) }
 
 func (g *crashGen) flush() {
